@@ -1,7 +1,7 @@
 CONSTANTS
   Objs = {0, 1, 2}
   ClearResetsId = FALSE
-  MaxAllocs = 7
+  MaxAllocs = 6
   MaxCells = 4
 SPECIFICATION Spec
 CONSTRAINT Bound
